@@ -9,7 +9,7 @@ Line protocol of the C14 model driver (one op per line in, one canonical line ou
   bfsort s0 s1 …                                 -> signatures after bfsort (mjSORT with uintcmp)
   csort NG t0 … t(NG-1) N a0 b0 a1 b1 …          -> tags after contactSort of N geom:geom contacts
   ccmp NG t0 … t(NG-1) a0 b0 a1 b1               -> contactcompare value
-  scene key=v,v,… key=…                          -> "bf s,s,… | item item …"  or  "error MSG"
+  scene key=v,v,… key=…                          -> "bf s,s,… | item item … | sap b:b,…"  (errors: "bf-error MSG", "error MSG")
       keys: nbody ngeom nt plane flags(dsblConstraint,dsblContact,dsblFilterParent,dsblMidphase)
             bw bp bd bga bgn bct bca bbvh  gt gct gca gb  ps pg1 pg2 xs  func(nt*nt 0/1)
             near(a:b,…) nearp(k,…) aamm(hex…, column-major over bfid)
@@ -216,7 +216,14 @@ def opScene (args : List String) : Option String := do
   let items := match collide M boxes with
     | .ok l => " ".intercalate (l.map showItem)
     | .error e => "error " ++ e
-  pure (bf ++ " | " ++ items)
+  -- the SAP pair list `mj_broadphase` receives (same call as in `Broadphase.broadphase`), for the check of the
+  -- `BroadComplete` hypothesis on real scenes
+  let nc := ids.length
+  let sap := if nc > 1 then
+      (mjSAP sapCmp32 (fun (a b : Float) => a > b) boxes (((nc * (nc - 1)) / 2 : Nat) : Int)).2
+    else []
+  let saps := ",".intercalate (sap.map fun p => s!"{p.1.val}:{p.2.val}")
+  pure (bf ++ " | " ++ items ++ " | sap " ++ saps)
 
 def step (line : String) : String :=
   match words line with
